@@ -665,7 +665,34 @@ def b_members(eng, n, st):
     return seq
 
 
+def b_remap(eng, n, st):
+    """remap(m, lambda x: cond, lambda x: val): (ghost) the map that sends x to val(x) where cond(x) holds and agrees with m elsewhere"""
+    m = eng.ev(n.args[0], st)
+    cl, vl = n.args[1], n.args[2]
+    x = z3.FreshConst(m.ty.k.sort(), "rmx")
+    out = []
+    for lam in (cl, vl):
+        nm = lam.args.args[0].arg
+        saved = st.env.get(nm)
+        st.env[nm] = Val(x, m.ty.k)
+        eng.in_spec += 1
+        try:
+            out.append(eng.ev(lam.body, st))
+        finally:
+            eng.in_spec -= 1
+            if saved is None:
+                st.env.pop(nm, None)
+            else:
+                st.env[nm] = saved
+    cond = eng.truthy(out[0])
+    val = eng.coerce(out[1], m.ty.v, st, n)
+    r = z3.FreshConst(m.ty.sort(), "remapped")
+    st.assume(z3.ForAll([x], z3.Select(r, x) == z3.If(cond, val.t, z3.Select(m.t, x))))
+    return Val(r, m.ty)
+
+
 BUILTINS = {
+    "remap": b_remap,
     "members": b_members,
     "const_map": b_const_map,
     "keypos_n": b_keypos_n, "keyseq_n": b_keyseq_n,
@@ -1305,6 +1332,7 @@ def key_order(eng, has, kty, st, ordered_keys=None):
     if not hasattr(eng, "key_orders"):
         eng.key_orders = []
     eng.key_orders.append((seq, Val(pos, MapT(kty, INT))))
+    eng.last_keypos = Val(pos, MapT(kty, INT))
     st.assume(z3.ForAll([i], z3.Implies(z3.And(0 <= i, i < L), z3.And(z3.Select(has, z3.Select(lty.arr(seq.t), i)), pos[z3.Select(lty.arr(seq.t), i)] == i))))
     st.assume(z3.ForAll([k], z3.Implies(z3.Select(has, k), z3.And(0 <= pos[k], pos[k] < L, z3.Select(lty.arr(seq.t), pos[k]) == k))))
     return seq, pos
